@@ -160,6 +160,9 @@ void vf_arena_range(uintptr_t *lo, uintptr_t *hi) { *lo = (uintptr_t)arena; *hi 
 void vf_core_sections(uintptr_t *blo, uintptr_t *bhi, uintptr_t *dlo, uintptr_t *dhi) {
     *blo = (uintptr_t)__start_core_bss; *bhi = (uintptr_t)__stop_core_bss; *dlo = (uintptr_t)__start_core_data; *dhi = (uintptr_t)__stop_core_data;
 }
+size_t vf_core_size(void) { return core_bss_size + core_data_size; }
+void vf_core_save(uint8_t *out) { raw_copy(out, __start_core_bss, core_bss_size); if (core_data_size) raw_copy(out + core_bss_size, __start_core_data, core_data_size); }
+void vf_core_load(const uint8_t *in) { raw_copy(__start_core_bss, in, core_bss_size); if (core_data_size) raw_copy(__start_core_data, in + core_bss_size, core_data_size); }
 void (*vf_on_free)(void *p, size_t size);       /* tsanabi: forget access history of a freed block */
 void (*vf_on_alloc)(void *p, size_t size);
 uint32_t vf_live_blocks(void) { return W.led.live_blocks; }
@@ -251,18 +254,19 @@ int lltd_port_get_icon_image(void **out_data, size_t *out_size) {
     if (out_data) *out_data = NULL;
     if (out_size) *out_size = 0;
     if (!out_data || !out_size) return -1;
-    if (fp_point(VF_F_ICON) || (W.host.fail & VF_G_ICON) || !W.host.icon_ok) return -1;
-    void *p = lltd_port_malloc(W.host.icon_size ? W.host.icon_size : 1);
+    if (fp_point(VF_F_ICON) || (W.host.fail & VF_G_ICON) || !W.host.icon_ok) { *out_size = W.host.icon_size; return -1; }   /* dirty failure: size set, no data */
+    size_t isz = W.env.icon_epoch == 2 ? 0 : W.host.icon_size;      /* environment state 2: the platform has an empty icon */
+    void *p = lltd_port_malloc(isz ? isz : 1);
     if (!p) return -1;
-    memcpy(p, W.host.icon, W.host.icon_size);
-    for (size_t i = 0; i < W.host.icon_size; i += 97) ((uint8_t *)p)[i] ^= (uint8_t)(W.env.icon_epoch * 0x3B);
-    *out_data = p; *out_size = W.host.icon_size; return 0;
+    memcpy(p, W.host.icon, isz);
+    for (size_t i = 0; i < isz; i += 97) ((uint8_t *)p)[i] ^= (uint8_t)(W.env.icon_epoch * 0x3B);
+    *out_data = p; *out_size = isz; return 0;
 }
 int lltd_port_get_friendly_name(void **out_data, size_t *out_size) {
     if (out_data) *out_data = NULL;
     if (out_size) *out_size = 0;
     if (!out_data || !out_size) return -1;
-    if (fp_point(VF_F_FNAME) || (W.host.fail & VF_G_FNAME) || !W.host.fname_ok) return -1;
+    if (fp_point(VF_F_FNAME) || (W.host.fail & VF_G_FNAME) || !W.host.fname_ok) { *out_size = W.host.fname_size; return -1; }   /* as os/darwin/lltd_port.c: size computed, allocation failed */
     void *p = lltd_port_malloc(W.host.fname_size ? W.host.fname_size : 1);
     if (!p) return -1;
     memcpy(p, W.host.fname, W.host.fname_size);
